@@ -101,6 +101,7 @@ def items(tier):
         out.append((sp, {"rule": "TSLACK", "max_time": F.seq_bound(sp) + 8}))
     for sp in F.nested_order_specs() + [F.loaned_worker_spec()] + F.two_pair_specs() + F.double_link_specs()[::5]:
         out.append((sp, {"rule": "TSLACK", "max_time": F.seq_bound(sp) + 8}))
+    out.append((F.long_idle_spec(130), {"rule": "TSLACK", "max_time": 160}))  # more than a hundred idle steps in the middle of the run
     for sp, o in F.scale_items():
         if not o.get("res_absence") and o["absence"] in ([], F.SCALE_ABSENCE[1]) and (tier == "thorough" or sp["label"] in ("scale:long-unsorted-calendars", "scale:8components", "scale:layers3x4", "scale:queue-of-nine")):
             out.append((sp, o))
